@@ -21,7 +21,7 @@ def templates(ctx):
     T = []
     n = 3 if ctx.quick() else 4
     # taxonomy: n defs, each with 0..2 `is` entries (symbolic bytes)
-    for shape in ([(0, 1, 1), (0, 1, 2), (0, 2, 1), (1, 1, 1)] if ctx.quick() else [(0, 1, 1), (0, 1, 2), (0, 2, 1), (1, 1, 1), (0, 2, 2), (0, 1, 1, 1), (0, 1, 2, 1)]):
+    for shape in ([(0, 1, 1), (0, 1, 2), (0, 2, 1), (1, 1, 1)] if ctx.quick() else [(0, 1, 1), (0, 1, 2), (0, 2, 1), (1, 1, 1), (0, 2, 2), (1, 2, 2), (0, 1, 1, 1)]):
         T.append({'name': 'tax-' + ''.join(map(str, shape)), 'mode': 'tax', 'is': list(shape)})
     # reflection: fixed taxonomy with a conjunct, record over defined / undefined tags as marker or non-marker
     T.append({'name': 'reflect', 'mode': 'reflect'})
